@@ -223,7 +223,8 @@ def parse_assumptions(out: str) -> dict:
     axioms = set()
     for blk in re.findall(r"Axioms:\n((?:.+\n?)+?)(?=\n\S|\Z)", out):
         for m in re.finditer(r"^(\S+)\s*:", blk, re.M):
-            axioms.add(m.group(1))
+            if m.group(1) not in ("Axioms", "Axioms:"):
+                axioms.add(m.group(1))
     # simpler fallback: lines of the form "name : type" right after "Axioms:"
     cur = False
     for line in out.split("\n"):
@@ -232,7 +233,7 @@ def parse_assumptions(out: str) -> dict:
             continue
         if cur:
             m = re.match(r"^([A-Za-z_][\w.']*)\s*:", line)
-            if m:
+            if m and m.group(1) != "Axioms":
                 axioms.add(m.group(1))
             elif line and not line.startswith(" "):
                 cur = False
